@@ -12,6 +12,7 @@ import (
 	"math"
 	"runtime"
 	"sort"
+	"sync"
 	"time"
 
 	"github.com/thanos-community/promql-engine/api"
@@ -240,7 +241,10 @@ type compatibilityQuery struct {
 	ts     time.Time // Empty for range queries.
 	t      QueryType
 
-	cancel context.CancelFunc
+	// cancelMtx guards cancel: Cancel and Close may be called from another
+	// goroutine while Exec is running.
+	cancelMtx sync.Mutex
+	cancel    context.CancelFunc
 }
 
 func (q *compatibilityQuery) Exec(ctx context.Context) (ret *promql.Result) {
@@ -253,7 +257,9 @@ func (q *compatibilityQuery) Exec(ctx context.Context) (ret *promql.Result) {
 
 	ctx, cancel := context.WithCancel(ctx)
 	defer cancel()
+	q.cancelMtx.Lock()
 	q.cancel = cancel
+	q.cancelMtx.Unlock()
 	verifhook.Point("engine.exec", 0)
 
 	resultSeries, err := q.Query.exec.Series(ctx)
@@ -394,9 +400,12 @@ func (q *compatibilityQuery) String() string { return q.expr.String() }
 
 func (q *compatibilityQuery) Cancel() {
 	verifhook.Point("engine.cancel", 0)
-	if q.cancel != nil {
-		q.cancel()
-		q.cancel = nil
+	q.cancelMtx.Lock()
+	cancel := q.cancel
+	q.cancel = nil
+	q.cancelMtx.Unlock()
+	if cancel != nil {
+		cancel()
 	}
 }
 
